@@ -81,9 +81,15 @@ def roundtrip(text):
         try:
             a2 = NP.CParser().parse(g1, "f.c")
         except Exception as e:
-            out.append(("reparse-fails", f"generated text ({tag}) does not parse: {type(e).__name__}: {e} -- generated {g1!r}"))
+            if _shared_specifier_hidden(a1, c_ast):
+                out.append(("declarator-hides-typedef-of-shared-specifiers", f"generated text ({tag}) does not parse: {type(e).__name__}: {e} -- generated {g1!r}"))
+                continue
+            out.append(("reparse-fails" + _reparse_sig(str(e), g1), f"generated text ({tag}) does not parse: {type(e).__name__}: {e} -- generated {g1!r}"))
             continue
         d = first_diff(structural(a1, c_ast), structural(a2, c_ast))
+        if d and _shared_specifier_hidden(a1, c_ast):
+            out.append(("declarator-hides-typedef-of-shared-specifiers", f"second AST differs ({tag}) at {d} -- generated {g1!r}"))
+            continue
         if d:
             out.append(("ast-differs:" + _sigpath(d), f"second AST differs ({tag}) at {d} -- generated {g1!r}"))
             continue
@@ -95,6 +101,68 @@ def roundtrip(text):
         if g2 != g1:
             out.append(("text-differs", f"second generation differs ({tag}): {g1!r} vs {g2!r}"))
     return texts, out
+
+
+def _shared_specifier_hidden(ast, c_ast):
+    """True when some declaration 'SPEC d1, d2;' has a declarator d1 that re-declares a typedef name used in SPEC
+    (e.g. 'T T, x;'): the AST has one Decl per declarator and no record of the grouping, so the generator must
+    print 'T T; T x;', where the second T is no longer a type.  Recognised on the AST: two sibling declarations
+    whose base type nodes have the same coordinate (one specifier token) and the earlier one's name occurs as a
+    type name inside the later one's type."""
+
+    def base(t):
+        while t is not None and not isinstance(t, (c_ast.IdentifierType, c_ast.Struct, c_ast.Union, c_ast.Enum)):
+            t = getattr(t, "type", None)
+        return t
+
+    def type_names(n, acc):
+        if isinstance(n, c_ast.IdentifierType):
+            acc.update(n.names)
+        for _, c in (n.children() if n is not None else []):
+            type_names(c, acc)
+        return acc
+
+    def walk(n):
+        if n is None:
+            return False
+        for field in ("ext", "block_items", "decls", "stmts"):
+            items = getattr(n, field, None) if field in getattr(n, "__slots__", ()) else None
+            if isinstance(items, list):
+                ds = [d for d in items if isinstance(d, (c_ast.Decl, c_ast.Typedef))]
+                for i, d1 in enumerate(ds):
+                    b1 = base(d1.type)
+                    for d2 in ds[i + 1:]:
+                        b2 = base(d2.type)
+                        if b1 is not None and b2 is not None and b1.coord is not None and str(b1.coord) == str(b2.coord) and d1.name and d1.name in type_names(d2.type, set()):
+                            return True
+        return any(walk(c) for _, c in n.children())
+
+    try:
+        return walk(ast)
+    except Exception:
+        return False
+
+
+def _reparse_sig(msg, text):
+    """what the second parse complained about (identifiers and numbers abstracted) and the first word of the
+    generated line it points into: separates unrelated causes of 'does not re-parse'"""
+    import re
+
+    m = re.match(r"^[^:]*:(\d+):(\d+): (.*)$", msg)
+    what = m.group(3) if m else msg.split(": ", 1)[-1]
+    what = re.sub(r"\b[A-Za-z_]\w*$", "ID", what) if what.startswith("before: ") and not re.search(r"before: (if|else|for|while|do|switch|case|default|return|sizeof|int|struct|union|enum|typedef|_\w+)$", what) else what
+    what = re.sub(r"\b\d\w*$", "NUM", what)
+    first = ""
+    if m:
+        lines = text.split("\n")
+        ln = int(m.group(1)) - 1
+        if 0 <= ln < len(lines):
+            w = lines[ln].split()
+            first = w[0] if w else ""
+            if re.fullmatch(r"[A-Za-z_]\w*", first) and first not in ("if", "else", "for", "while", "do", "switch", "case", "default", "return", "struct", "union", "enum", "typedef", "int", "char", "void"):
+                first = "ID"
+            first = re.sub(r"\(.*$", "(", first)
+    return f":{what[:40]}:{first[:12]}"
 
 
 def _sigpath(d):
@@ -117,7 +185,12 @@ def contexts(tier):
         else:
             out.append((Ctx("rt:" + c.name, c.prefix, c.suffix, domain=c.domain), max(1, n - 1) if q else n))
     # expressions in constant-expression / condition positions, statement expressions, _Atomic(...) in type names
-    cls = {"?V": ["1", "x"], "?W": ["2u", "T"], "?S": [",", "="]}
+    cls = {"?V": ["1", "x"], "?W": ["2u", "T"], "?S": [",", "="],
+           # statement heads (multi-token hole classes), static assertions, declarations sharing a specifier list
+           "?H": ["if ( x )", "else", "while ( x )", "for ( ; ; )", "for ( ( { 1 ; } ) ; ( { 1 ; } ) ; ( { 1 ; } ) )", "do", "x :", "T :", "case 1 :", "default :", "switch ( x )", ""],
+           "?A": ['_Static_assert ( 1 , "s" ) ;', "_Static_assert ( 1 ) ;", 'struct { _Static_assert ( 1 , L"w" "s" ) ; int x ; } y ;', "x ;", "int y ;", ";", "{ }"],
+           "?D": ["T T , x ;", "T x , T ;", "T T , * x , y [ sizeof ( T ) ] ;", "T * T , x ;", "typedef T T , x ;", "T x = sizeof ( T ) , T ;", "struct x { T T ; T y ; } T , y ;", "enum { y , T } x ; T y ;"],
+           }
     extra = [
         (c05.FN, "switch ( x ) { case ( ?V ?S x ) : ; default : ; }", ["}"]),
         (c02.PRE, "struct y { int x : ( ?V , 2u ) ; } ;", []),
@@ -130,6 +203,10 @@ def contexts(tier):
         (c02.PRE, "int x = sizeof ( _Atomic ( ?W ) ) + _Alignof ( _Atomic ( ?W * ) ) ;", []),
         (c02.PRE, "void y ( _Atomic ( ?W ) , _Atomic ( ?W * ) const , _Atomic ( int ) x ) ;", []),
         (c05.FN, "x = ( _Atomic ( ?W ) ) ?V ;", ["}"]),
+        (c05.FN, "switch ( x ) { ?H ?A ?H ?A while ( x ) ; }", ["}"]),
+        (c05.FN, "?D T ;", ["}"]),
+        (c05.FN, "{ ?D } T * x ;", ["}"]),
+        (c02.PRE, 'char x [ ] = "s" L"w" , y [ ] = u8"s" "s" "s" ;', []),
     ]
     for i, (pre, pat, suf) in enumerate(extra):
         out.append((PatCtx(f"rt:extra{i}:{pat}", pre, pat, suf, cls), 0))
